@@ -14,6 +14,11 @@ use std::collections::{BTreeMap, BTreeSet};
 pub const CAP: u128 = 1_000_000_000_000_000_000_000_000_000; // 10^27
 pub const WEEK: u64 = 604_800;
 
+/// `now + period` is representable as a nanosecond timestamp (what the contract can store and report)
+pub fn deadline_ok(now: u64, period: u64) -> bool {
+    now.checked_add(period).map(|t| t.checked_mul(1_000_000_000).is_some()).unwrap_or(false)
+}
+
 #[derive(Clone, Debug)]
 pub struct Violation {
     pub tags: Vec<&'static str>,
@@ -90,6 +95,11 @@ impl Engine {
         let monitors = msg.monitors.clone();
         let out = ch.instantiate(&a.admin0, msg);
         if !out.ok {
+            // a typed rejection of a period that cannot be added to the block time is not a defect
+            let now = ch.now_s();
+            if out.panic.is_none() && !deadline_ok(now, setup.batch_period) {
+                return Err("benign: configuration with an unrepresentable deadline rejected".into());
+            }
             return Err(format!("instantiate failed: {:?} panic={:?}", out.err, out.panic));
         }
         let mut batches = BTreeMap::new();
